@@ -125,8 +125,16 @@ void EPollPoller::updateChannel(Channel* channel)
       assert(channels_[fd] == channel);
     }
 
-    channel->set_index(kAdded);
-    update(EPOLL_CTL_ADD, channel);
+    if (channel->isNoneEvent())
+    {
+      // nothing to watch: known to the poller, not in the epoll set
+      channel->set_index(kDeleted);
+    }
+    else
+    {
+      channel->set_index(kAdded);
+      update(EPOLL_CTL_ADD, channel);
+    }
   }
   else
   {
